@@ -375,10 +375,47 @@ func patience(sig string, T time.Duration) time.Duration {
 	return T
 }
 
+// duringPause is how long the client waits between opening connections while
+// Close() is held by an exchange in flight and releasing that exchange: the
+// accept loop and the new connection's handler get this long to close it.
+var duringPause = 300 * time.Millisecond
+
+const whileCloseWaits = "accepted-while-close-waits-for-an-exchange"
+
 func run(c Case) kit.Verdict {
 	v := runOnce(c, kit.T())
 	if kit.Shrinking() {
 		return v
+	}
+	for _, f := range v {
+		if !strings.Contains(f.Sig, whileCloseWaits) {
+			continue
+		}
+		// "Close() was held by an exchange, the connection had all the time it
+		// needed" is only as true as the scheduler is kind: a loaded machine can
+		// keep the accept loop from running for the whole pause. The same case
+		// with ten times the pause tells a connection that is never closed while
+		// the shutdown lasts (the repaired defect) from one whose close lost a race
+		// (the open finding about the accept loop, asserted under its own shape).
+		old := duringPause
+		duringPause = 10 * old
+		v2 := runOnce(c, kit.T())
+		duringPause = old
+		again := false
+		for _, f2 := range v2 {
+			again = again || strings.Contains(f2.Sig, whileCloseWaits)
+		}
+		if !again {
+			kit.Inconclusive("shutdown")
+			var rest kit.Verdict
+			for _, f1 := range v {
+				if !strings.Contains(f1.Sig, whileCloseWaits) {
+					rest = append(rest, f1)
+				}
+			}
+			v = rest
+		}
+		break
 	}
 	fresh := false
 	confMu.Lock()
@@ -767,6 +804,9 @@ func runOnce(c Case, T time.Duration) (v kit.Verdict) {
 	if c.NewDuring {
 		tryNew("during-1")
 		tryNew("during-2")
+		if len(c.Release) > 0 && !c.SlowClose && !c.ShortTimeout {
+			time.Sleep(duringPause)
+		}
 	}
 
 	if c.ShortTimeout {
